@@ -73,8 +73,35 @@ func childSave(args []string) {
 	mark(mark2)
 }
 
+// childResave: one save of session C into an existing directory (the state a crashed save left behind).
+func childResave(args []string) {
+	runtime.LockOSThread()
+	if len(args) < 2 {
+		fmt.Fprintln(os.Stderr, "child resave: need <data dir> <fs dir>")
+		os.Exit(4)
+	}
+	mark(fmt.Sprintf("VERIF-TID %010d PID %010d\n", syscall.Gettid(), os.Getpid()))
+	var cdata session.Data
+	raw, err := os.ReadFile(filepath.Join(args[0], "c.json"))
+	if err == nil {
+		err = json.Unmarshal(raw, &cdata)
+	}
+	if err != nil {
+		fmt.Fprintln(os.Stderr, "child resave:", err)
+		os.Exit(4)
+	}
+	ld := session.Loader{Storage: &session.FileStorage{Path: filepath.Join(args[1], targetName)}}
+	mark(mark1)
+	if err := ld.Save(context.Background(), &cdata); err != nil {
+		mark(markErr + err.Error() + "\n")
+		os.Exit(5)
+	}
+	mark(mark2)
+}
+
 func main() {
 	mon.RegisterChild("save", childSave)
+	mon.RegisterChild("resave", childResave)
 	mon.Main("sessfile", map[string]mon.PropFunc{
 		"C31": runC31,
 	})
